@@ -478,10 +478,19 @@ def main(argv):
             else:
                 report.add_obligation(o["id"], "A", o["verdict"], o["solver"], o["ms"], r["label"])
                 report.undecide(f"{o['id']}: {o['verdict']} {o.get('reason')}")
+    # the identities of the opaque machine operations are lemmas, discharged in z3's IEEE-754 theory
+    sys.path.insert(0, os.path.dirname(os.path.abspath(__file__)))
+    import lemmas
+
+    n_before = len(report.obligations)
+    report.guarded("IEEE-754 identity lemmas", lemmas.run, report)
+    lemmas_ok = all(o["verdict"] == "discharged" for o in report.obligations[n_before:]) and len(report.obligations) > n_before
     # kind C
     for mm in bounded_cross_check(report, tier, seed)[:5]:
         report.violation("bounded:" + mm["input"][:60], mm, True)
-    report.trusted = list(dict.fromkeys(ctx.trusted))
+    report.trusted = [t for t in dict.fromkeys(ctx.trusted) if not (lemmas_ok and (t.startswith("IEEE-754 identities") or t.startswith("int32 -> double")))]
+    if lemmas_ok:
+        report.trusted.append("the abstraction of finite doubles by reals with opaque +,-,* is sound for the identities used (each identity proved in z3's Float64 theory; int32->double exactness proved)")
     report.assumptions = [
         "Python semantics as modelled by pyvc (integers mathematical, frozen dataclasses are values, fields hold their annotated types, singledispatch picks the registered class, unbounded recursion depth)",
         "floats are finite and modelled as reals (sign of zero and NaN/inf not represented); machine integers are int32 with overflow = error",
